@@ -261,6 +261,16 @@ fn duration_of_nanos(nanos: i128) -> Option<Duration> {
     Duration::new(secs, nanos.rem_euclid(1_000_000_000) as u32)
 }
 
+/// An integer result beyond the i64 range is the float computation - unless that float is itself
+/// an integer in range: a result in [-2^63 - 1024, -2^63) rounds to -2^63 exactly, which would come
+/// out as the integer i64::MIN, a saturated value that even compares equal to its own operand.
+fn beyond_i64(float: f64, left: i64, op: &'static str, right: i64) -> Result<Value, EvalError> {
+    match Value::from_float(float) {
+        Value::Int(_) => Err(out_of_range(left, op, right)),
+        value => Ok(value),
+    }
+}
+
 /// Text that holds an integer takes part in `+`, `-` and `*` as that integer, not as the nearest
 /// double (every other text is coerced to a double by `binary_op`).
 fn int_text(v: Value) -> Value {
@@ -293,7 +303,7 @@ impl Add for Value {
             (Value::Float(lf), Value::Float(rf)) => Ok(Value::from_float((lf + rf).0)),
             (Value::Int(li), Value::Int(ri)) => match li.checked_add(ri) {
                 Some(res) => Ok(Value::Int(res)),
-                None => Ok(Value::from_float(li as f64 + ri as f64)),
+                None => beyond_i64(li as f64 + ri as f64, li, "+", ri),
             },
             (left, right) => left.binary_op(&f64::add, "+", &right),
         }
@@ -317,7 +327,7 @@ impl Sub for Value {
             (Value::Float(lf), Value::Float(rf)) => Ok(Value::from_float((lf - rf).0)),
             (Value::Int(li), Value::Int(ri)) => match li.checked_sub(ri) {
                 Some(res) => Ok(Value::Int(res)),
-                None => Ok(Value::from_float(li as f64 - ri as f64)),
+                None => beyond_i64(li as f64 - ri as f64, li, "-", ri),
             },
             (left, right) => left.binary_op(&f64::sub, "-", &right),
         }
@@ -342,7 +352,7 @@ impl Mul for Value {
             (Value::Float(lf), Value::Float(rf)) => Ok(Value::from_float((lf * rf).0)),
             (Value::Int(li), Value::Int(ri)) => match li.checked_mul(ri) {
                 Some(res) => Ok(Value::Int(res)),
-                None => Ok(Value::from_float(li as f64 * ri as f64)),
+                None => beyond_i64(li as f64 * ri as f64, li, "*", ri),
             },
             (left, right) => left.binary_op(&f64::mul, "*", &right),
         }
